@@ -269,9 +269,7 @@ func (x *opPath) Do(currentData, originalData any) (dataToUse any, err error) {
 		// This is a special case where the root is being returned
 
 		// As we always guarantee numbers are returned as the decimal type, we do this check
-		if _, ok := dataToUse.(string); !ok {
-			dataToUse = convertToDecimalIfNumber(dataToUse)
-		}
+		dataToUse = convertNumberKindsToDecimal(dataToUse)
 	}
 
 	var priorResultWasNil bool
